@@ -24,7 +24,8 @@ RULE = ("Each generated case is shipped to three persistent worker processes: JI
         "numba.set_num_threads(n), n in {1,2,4,8,16} and must be bitwise identical. (3) Complete runs on generic continuous "
         "data in all three modes must return identical labels; on divergence the first differing round is located and the "
         "case is a violation only if the exact cost gap there exceeds the slack or the scored tables differ beyond the "
-        "likelihood tolerance. Non-trivial = (1) T>=2,K>=2 with a switching optimum, (2) NW>=8, (3) >= 2 rounds; distinct by SHA-1.")
+        "likelihood tolerance. Non-trivial = (1) T>=2,K>=2 with a switching optimum, (2) NW>=8, (3) >= 2 rounds; distinct by SHA-1."
+        ' Complete runs per Numba thread-team size (1,2,7,8,16) must agree in every result field; a third of the cross-mode runs use >f8/float32/>f4/float16 data.')
 ASSUMPTIONS = ["thread interleaving is not controlled, only the thread count (numba.set_num_threads)",
                "modes are separate processes because Numba reads its configuration at import"]
 
